@@ -310,6 +310,9 @@ class Inliner:
                 if keep_param is not None and isinstance(v, ast.Name) and v.id == keep_param:
                     rename[p] = v.id         # x = h(x): the parameter IS the caller's variable
                     continue
+                if isinstance(v, ast.Name) and self._host_load_counts.get(v.id, 0) == 1 and v.id not in stored - {p}:
+                    rename[p] = v.id         # the caller reads that variable only in this call: the helper may go on using it
+                    continue
                 new = self.fresh(p, host_names)
                 rename[p] = new
                 prelude.append(ast.Assign(targets=[ast.Name(id=new, ctx=ast.Store())], value=copy.deepcopy(v)))
@@ -354,7 +357,7 @@ class Inliner:
                 out = pre + body
                 if not out or not self._always_exits(out):
                     out.append(ast.copy_location(ast.Return(value=None), s))
-                return self.done(h, out)
+                return self.done(h, out, s)
         # b. x = h(...)
         if isinstance(s, (ast.Assign, ast.AnnAssign)) and isinstance(s.value, ast.Call):
             h, recv = self.lookup(s.value, host, host_cls, nested)
@@ -375,7 +378,7 @@ class Inliner:
                 new, term = _tail(body, make)
                 if not term:
                     new += self._assign(targets, ast.Constant(value=None), s)
-                return self.done(h, pre + new)
+                return self.done(h, pre + new, s)
         # c. h(...)
         if isinstance(s, ast.Expr) and isinstance(s.value, ast.Call):
             h, recv = self.lookup(s.value, host, host_cls, nested)
@@ -387,12 +390,12 @@ class Inliner:
                         return []
                     return [ast.copy_location(ast.Expr(value=r.value), r)]
                 new, term = _tail(body, make)
-                return self.done(h, (pre + new) or [ast.copy_location(ast.Pass(), s)])
+                return self.done(h, (pre + new) or [ast.copy_location(ast.Pass(), s)], s)
         # e. for x in g(...): body
         if isinstance(s, ast.For) and isinstance(s.iter, ast.Call) and not s.orelse:
             h, recv = self.lookup(s.iter, host, host_cls, nested)
             if h is not None and h.generator:
-                return self.done(h, self.expand_generator_loop(h, s, recv, host_names))
+                return self.done(h, self.expand_generator_loop(h, s, recv, host_names), s)
         # d. nested in a larger expression
         return self.expand_in_expr(s, host, host_cls, nested, host_names)
 
@@ -418,11 +421,19 @@ class Inliner:
             return Inliner._always_exits(last.body)
         return False
 
-    def done(self, h, stmts):
+    def done(self, h, stmts, at=None):
         self.count += 1
         self.log.append(h.qualname)
+        line = getattr(at, 'lineno', None)
         for s in stmts:
             ast.fix_missing_locations(s)
+            if line is not None:
+                # expanded statements sit AT the call site: rules that order statements by line keep working, reports name the call site
+                for n in ast.walk(s):
+                    if hasattr(n, 'lineno'):
+                        n.lineno = line
+                        if hasattr(n, 'end_lineno'):
+                            n.end_lineno = line
         return stmts
 
     # ------------------------------------------------------------------ expression-level expansion
@@ -626,6 +637,10 @@ class Inliner:
             host_names = _all_names(node)
             self._host_locals = _stored_names(node.body) | {a.arg for a in node.args.posonlyargs + node.args.args + node.args.kwonlyargs}
             self._host_locals -= set(nested)
+            self._host_load_counts = {}
+            for nn in ast.walk(node):
+                if isinstance(nn, ast.Name) and isinstance(nn.ctx, ast.Load):
+                    self._host_load_counts[nn.id] = self._host_load_counts.get(nn.id, 0) + 1
             me = self.helpers.get(id(node))
             saved = None
             if me is not None:
